@@ -28,6 +28,14 @@ func (c04) Gen(rng *rand.Rand, tier string) []Case {
 		n = 8000
 	}
 	var out []Case
+	// dedicated concurrent stress cases: many goroutines, many iterations, a shared registry of live blocks
+	stress := 3
+	if tier == "thorough" {
+		stress = 12
+	}
+	for i := 0; i < stress; i++ {
+		out = append(out, Case{Prop: "C04", Ops: []string{"buf:0102030405060708", fmt.Sprintf("conc:%d,%d", 4+4*(i%4), 4000)}})
+	}
 	for i := 0; i < n; i++ {
 		var ops []string
 		nb := 1 + rng.Intn(3)
@@ -192,7 +200,24 @@ func (c04) Run(c Case) Result {
 		case "conc":
 			g, n := atoi(0), atoi(1)
 			var wg sync.WaitGroup
-			errs := make(chan string, g)
+			errs := make(chan string, 4*g)
+			var regMu sync.Mutex
+			live := map[*byte]int{} // blocks of undisposed pooled packets, across all goroutines
+			claim := func(p gopacket.Packet, w int) bool {
+				regMu.Lock()
+				defer regMu.Unlock()
+				b := unsafe.SliceData(p.Data())
+				if _, dup := live[b]; dup {
+					return false
+				}
+				live[b] = w
+				return true
+			}
+			release := func(p gopacket.Packet) {
+				regMu.Lock()
+				delete(live, unsafe.SliceData(p.Data()))
+				regMu.Unlock()
+			}
 			for w := 0; w < g; w++ {
 				wg.Add(1)
 				go func(w int) {
@@ -204,19 +229,21 @@ func (c04) Run(c Case) Result {
 					for it := 0; it < n; it++ {
 						p1 := gopacket.NewPacket(src, gopacket.DecodePayload, gopacket.DecodeOptions{Pool: true})
 						p2 := gopacket.NewPacket(src[:32], gopacket.DecodePayload, gopacket.DecodeOptions{Pool: true})
-						if unsafe.SliceData(p1.Data()) == unsafe.SliceData(p2.Data()) {
-							errs <- "two undisposed pooled packets share a block"
+						if !claim(p1, w) || !claim(p2, w) {
+							errs <- "two undisposed pooled packets (possibly of different goroutines) share a block"
 							return
 						}
 						if !bytes.Equal(p1.Data(), src) || !bytes.Equal(p2.Data(), src[:32]) {
 							errs <- "pooled packet changed while held"
 							return
 						}
+						release(p1)
 						p1.(gopacket.PooledPacket).Dispose()
 						if !bytes.Equal(p2.Data(), src[:32]) {
 							errs <- "pooled packet changed after another was disposed"
 							return
 						}
+						release(p2)
 						p2.(gopacket.PooledPacket).Dispose()
 					}
 				}(w)
